@@ -300,6 +300,11 @@ def gen_case(rng, tier, exact=False, deriv=None, force=None):
         g = rng.choice([2, 2, 3])
         d = rng.choice([2, 2, 3])
         G = tuple([d, d if rng.random() < 0.6 else rng.choice([2, 3])] + [rng.choice([1, 2])] * (g - 2))
+    nd = force == "nd-shift"
+    if nd:      # first axis carries a grid whose coefficients may cancel when summed over it
+        d = rng.choice([2, 4, 4])
+        G = (d,) + tuple(rng.choice([1, 2, 3]) for _ in range(rng.choice([0, 1, 1, 2])))
+        g = len(G)
     if prodn(G) > (16 if g == 4 else 36):
         G = tuple(min(d, 2) for d in G)
     nops = rng.randint(2, 6)
@@ -307,6 +312,25 @@ def gen_case(rng, tier, exact=False, deriv=None, force=None):
     if exact:
         deriv = "none"
     ops = [{"kind": "T0"}]      # excite first: partials w.r.t. T2 / g / phi vanish on the equilibrium state
+    if nd:
+        deriv = "none"
+        d = G[0]
+        flavour = rng.choice(["phase-cycle", "phase-cycle", "pm-alpha", "pm-alpha", "alternating", "generic"])
+        a0 = float(rng.choice([30, 60, 90, 120]))
+        if flavour == "phase-cycle":      # 0/180 or 0/90/180/270 (+ common offset)
+            off = float(rng.choice([0, 0, 20, 45]))
+            alpha, phi = a0, [off + 360.0 * j / d for j in range(d)]
+        elif flavour == "pm-alpha":       # -a, +a (, -b, +b)
+            b0 = float(rng.choice([40, 75]))
+            alpha, phi = ([-a0, a0] if d == 2 else [-a0, a0, -b0, b0]), float(rng.choice([0, 90, 30]))
+        elif flavour == "alternating":    # alternating-sign phases
+            alpha, phi = a0, [(-1) ** j * 90.0 for j in range(d)]
+        else:
+            alpha, phi = rnd_values(rng, 20, 160, (d,)).tolist(), float(rng.choice([0, 90, 30]))
+        ops = [{"kind": "T", "A": [d], "axes": None, "pos": [0], "A0": [d], "order1": None, "order2": False,
+                "params": {"alpha": {"v": alpha, "core": 0, "form": "scalar" if np.ndim(alpha) == 0 else "list"},
+                           "phi": {"v": phi, "core": 0, "form": "scalar" if np.ndim(phi) == 0 else "list"}}}]
+        kvec = rng.choice([[1, 0], [1, 0], [1, 1, 0], [2, 0], [1, 0, 0]])
     shifted = 0
     for _ in range(nops):
         kinds = ["ScalarOp", "MatrixOp"] if exact else ["T", "T", "Phi", "E", "E", "P", "R", "PD", "ScalarOp", "MatrixOp"]
@@ -368,7 +392,11 @@ def gen_case(rng, tier, exact=False, deriv=None, force=None):
                 else:
                     o["order1"] = sorted(rng.sample(pnames, rng.randint(1, len(pnames))))
         ops.append(o)
-        if rng.random() < 0.45:
+        if nd:
+            if rng.random() < 0.7:
+                ops.append({"kind": "Snd", "k": list(kvec), "A": [1]})
+                shifted += 1
+        elif rng.random() < 0.45:
             d = rng.choice([1, 1, 2])
             if rng.random() < 0.25 and deriv == "none":   # S(array k) drops the partials even unbatched (not C07)
                 Ak = tuple(G[i] if rng.random() < 0.7 else 1 for i in range(rng.randint(1, len(G))))
@@ -381,7 +409,15 @@ def gen_case(rng, tier, exact=False, deriv=None, force=None):
                 shifted += d
         if rng.random() < 0.2:
             ops.append({"kind": "ADC"})
-    if shifted:
+    if nd:
+        if not shifted:
+            ops.append({"kind": "Snd", "k": list(kvec), "A": [1]})
+            shifted = 1
+        ops.append({"kind": "T0"})
+        for _ in range(shifted):      # refocus echo by echo, acquiring each
+            ops.append({"kind": "Snd", "k": [-x for x in kvec], "A": [1]})
+            ops.append({"kind": "ADC"})
+    elif shifted:
         ops.append({"kind": "T0"})
         ops.append({"kind": "S", "k": -shifted, "A": [1]})
     ops.append({"kind": "ADC"})
@@ -390,6 +426,8 @@ def gen_case(rng, tier, exact=False, deriv=None, force=None):
             if o["kind"] == "T0":
                 o["kind"] = "M0"
     case = {"grid": list(G), "ops": ops, "deriv": deriv, "exact": exact, "probe": rng.choice(["F0", "Z0"])}
+    if nd:
+        case["nd"] = True
     return case
 
 
@@ -415,6 +453,8 @@ def build_op(o, idx=None):
         return epg.ADC
     if k == "T0":
         return epg.T(35, 20)
+    if k == "Snd":      # n-D integer shift, default pruning
+        return epg.S([int(x) for x in o["k"]])
     if k == "M0":
         return opmatrix.MatrixOp(np.array(M0, dtype=complex))
     if k == "S":
@@ -454,6 +494,8 @@ def build_op(o, idx=None):
 def probes_of(case, seq):
     import epgpy as epg
     pr = [case["probe"]]
+    if case.get("nd"):
+        pr = ["F0", "Z0", "nstate"]
     if case["deriv"] != "none":
         vs = sorted({v for op in seq for v in getattr(op, "order1", {})})
         if vs:
@@ -515,6 +557,8 @@ def oracle(case):
             pass
         return ("exception", {"type": type(e).__name__, "msg": str(e)[:200], "where": where})
     nacq = sum(1 for o in case["ops"] if o["kind"] == "ADC")
+    nvec = vec.pop() if case.get("nd") else None      # number of phase states at each acquisition
+    nmax = None
     for a in vec:
         if tuple(a.shape[:1 + len(G)]) != (nacq,) + G:
             return ("shape", {"got": list(a.shape), "expected_prefix": [nacq] + list(G)})
@@ -524,6 +568,9 @@ def oracle(case):
             ref = run_scalar(case, idx)
         except Exception as e:
             return ("scalar-exception", {"type": type(e).__name__, "msg": str(e)[:200], "idx": list(idx)})
+        if nvec is not None:
+            ns = np.asarray(ref.pop()).reshape(-1)
+            nmax = ns if nmax is None else np.maximum(nmax, ns)
         for pi, (a, r) in enumerate(zip(vec, ref)):
             got = a[(slice(None),) + idx]
             r = r.reshape(got.shape) if r.size == got.size else r
@@ -537,6 +584,8 @@ def oracle(case):
                 d = float(np.max(np.abs(got - r)))
                 if worst is None or d > worst[1]["maxdiff"]:
                     worst = ("value", {"probe": pi, "idx": list(idx), "maxdiff": d, "vector": str(got.ravel()[:4]), "scalar": str(r.ravel()[:4])})
+    if worst is None and nvec is not None and np.any(np.asarray(nvec).reshape(-1) < nmax):
+        return ("state-count", {"vector_nstate": np.asarray(nvec).reshape(-1).tolist(), "max_scalar_nstate": nmax.tolist()})
     return worst
 
 
@@ -695,7 +744,7 @@ def classify(case, res):
         if "_acquire" in w or "accumulate" in w or "diff.py" in w or "stack" in res[1].get("msg", ""):
             return {"site": "Jacobian-stack", "why": "partials-of-different-batch-shapes"}
     return {"site": "unclassified", "kind": res[0], "deriv": case["deriv"],
-            "kinds": sorted({o["kind"] for o in case["ops"] if o["kind"] not in ("ADC", "T0", "M0")})}
+            "kinds": sorted({o["kind"] for o in case["ops"] if o["kind"] not in ("ADC", "T0", "M0", "Snd")})}
 
 
 def jsonable(case):
@@ -778,8 +827,9 @@ def part_bc(ctx, n, n_exact):
         exact = i >= n
         directed = (not exact) and i % 4 == 3
         mixed = (not exact) and i % 4 == 1
-        case = gen_case(rng, ctx.tier, exact=exact, deriv="o1" if directed else "o2" if mixed else None,
-                        force="axes+deriv" if directed else "mixed-o2" if mixed else None)
+        ndshift = (not exact) and i % 4 == 2
+        case = gen_case(rng, ctx.tier, exact=exact, deriv="o1" if directed else "o2" if mixed else "none" if ndshift else None,
+                        force="axes+deriv" if directed else "mixed-o2" if mixed else "nd-shift" if ndshift else None)
         stats["cases"] += 1
         stats["exact_cases"] += int(exact)
         stats["deriv"][case["deriv"]] = stats["deriv"].get(case["deriv"], 0) + 1
